@@ -1,6 +1,6 @@
 From Coq Require Import ZArith List Bool Reals Lra.
 From Flocq Require Import Core BinarySingleNaN.
-Require Import GV.FloatBase GV.FloatLemmas GV.AngleM GV.AngleProofs GV.GeonumM GV.GeonumProofs GV.TraitsM GV.NewProofs GV.CtorProofs GV.ClosureProofs.
+Require Import GV.FloatBase GV.FloatLemmas GV.AngleM GV.AngleProofs GV.GeonumM GV.GeonumProofs GV.TraitsM GV.NewProofs GV.CtorProofs GV.ClosureProofs GV.TraitsProofs GV.BoundProofs.
 Open Scope R_scope.
 Require Import GV.Properties.C09.
 Check C09_encoding : forall (L : libm) a b, fin (dot_value L a b) ->
@@ -18,3 +18,7 @@ Print Assumptions C09_diff_canon.
 Check C09_self : forall (L : libm) a, cos_zero_one L -> fin (rem (ang a)) -> fin (fmul (mag a) (mag a)) ->
   dot L a a = {| mag := fmul (mag a) (mag a); ang := {| rem := zero; blade := 0 |} |}.
 Print Assumptions C09_self.
+Check C09_bound : forall (L : libm) a b, cos_range L -> fin (fmul (mag a) (mag b)) ->
+  Rabs (R_ (fmul (mag a) (mag b))) <= bpow radix2 1000 ->
+  fin (dot_value L a b) /\ R_ (mag (dot L a b)) <= Rabs (R_ (fmul (mag a) (mag b))).
+Print Assumptions C09_bound.
